@@ -139,7 +139,7 @@ let monitors = [
       | 8 -> "start_enc_req_unrequested" | _ -> "shape");
   "C29", mk_monitor minit29 mstep29 (fun t -> match t with
       | 1 -> "order" | 2 -> "duplicate" | 3 -> "closed_missing" | 4 -> "unrequested" | 5 -> "established_and_timeout"
-      | 6 -> "requested_missing" | 7 -> "established_missing" | 8 -> "fault" | _ -> "shape");
+      | 6 -> "requested_missing" | 7 -> "established_missing" | 8 -> "fault" | 9 -> "closed_reason" | _ -> "shape");
   "none", mon_none ]
 
 let cfg = ref (cfg_of "base")
